@@ -234,6 +234,10 @@ func (v *VC) genAppend(i *ssa.Call, g string, heap *Heap) {
 		inPlace, res, a, res, a, res, a, res, freshBase, res, newLen, res))
 	// nil stays nil only if nothing was appended
 	v.assume(g, fmt.Sprintf("(=> (= %s 0) (= %s %s))", blen, res, a))
+	if id := v.pointeeID(et); id > 0 {
+		v.features["tyof"] = true
+		v.assume(g, fmt.Sprintf("(forall ((k Int)) (! (= (tyof (selem %s k)) %d) :pattern ((selem %s k))))", res, id, res))
+	}
 	if _, isStr := i.Call.Args[1].Type().Underlying().(*types.Basic); isStr {
 		v.unsupp("append(bytes, string...)")
 		return
@@ -254,8 +258,12 @@ func (v *VC) genAppend(i *ssa.Call, g string, heap *Heap) {
 				v.assume(g, fmt.Sprintf("(= (select %s %s) (select %s %s))", nm, el(res, fmt.Sprintf("(+ (s-len %s) %d)", a, j)), old, path(fmt.Sprintf("(elm (s-base %s) %d)", b, j))))
 			}
 		}
-		// frame: cells outside the written window keep their value
-		v.assume(g, fmt.Sprintf("(forall ((p Ptr)) (! (=> (not (and (= (root p) (root (s-base %s))) (in-window p %s (s-len %s) %s))) (= (select %s p) (select %s p))) :pattern ((select %s p))))", res, res, a, newLen, nm, old, nm))
+		// frame: only the leaf cells of the appended elements change
+		var shapes []string
+		for _, path := range paths {
+			shapes = append(shapes, fmt.Sprintf("(= p %s)", path(fmt.Sprintf("(elm (s-base %s) (eidx p))", res))))
+		}
+		v.assume(g, fmt.Sprintf("(forall ((p Ptr)) (! (=> (not (and (= (root p) (root (s-base %s))) (in-window p %s (s-len %s) %s) (or %s false))) (= (select %s p) (select %s p))) :pattern ((select %s p))))", res, res, a, newLen, strings.Join(shapes, " "), nm, old, nm))
 		heap.m[key] = nm
 	})
 	v.features["in-window"] = true
@@ -333,7 +341,11 @@ func (v *VC) genCopy(i *ssa.Call, g string, heap *Heap) {
 				v.assume(g, fmt.Sprintf("(forall ((k Int)) (! (=> (and (<= 0 k) (< k %s)) (= (select %s %s) (select %s %s))) :pattern ((select %s %s))))", n, nm, el(dst, "k"), old, el(src, "k"), nm, el(dst, "k")))
 			}
 		}
-		v.assume(g, fmt.Sprintf("(forall ((p Ptr)) (! (=> (not (and (= (root p) (root (s-base %s))) (in-window p %s 0 %s))) (= (select %s p) (select %s p))) :pattern ((select %s p))))", dst, dst, n, nm, old, nm))
+		var shapes []string
+		for _, path := range paths {
+			shapes = append(shapes, fmt.Sprintf("(= p %s)", path(fmt.Sprintf("(elm (s-base %s) (eidx p))", dst))))
+		}
+		v.assume(g, fmt.Sprintf("(forall ((p Ptr)) (! (=> (not (and (= (root p) (root (s-base %s))) (in-window p %s 0 %s) (or %s false))) (= (select %s p) (select %s p))) :pattern ((select %s p))))", dst, dst, n, strings.Join(shapes, " "), nm, old, nm))
 		heap.m[key] = nm
 	})
 	v.features["in-window"] = true
@@ -406,6 +418,21 @@ func (v *VC) doCall(c *ssa.CallCommon, g string, heap *Heap, pos token.Pos) []st
 		bindings = mc.Bindings
 	}
 	if callee == nil {
+		if gk := globalFuncVarKey(c.Value); gk != "" {
+			if ct, ok := v.P.db.Contracts[gk]; ok {
+				ct.Used = true
+				v.calls[gk] = true
+				v.note("assumed contract of the function stored in package variable %s", gk)
+				v.safety("nil-func-call", g, fmt.Sprintf("(not (= %s nilp))", v.val(c.Value)), pos)
+				return v.modularSig(gk, sig, ct, append([]string{v.val(c.Value)}, args...), c.Value.Type(), g, heap, pos)
+			}
+		}
+		if prm, ok := c.Value.(*ssa.Parameter); ok && v.contract != nil && v.contract.Callbacks[prm.Name()] && !v.inline {
+			v.note("callback parameter %s of %s is assumed not to modify memory this function observes", prm.Name(), shortKey(fnKey(v.fn)))
+			v.safety("nil-func-call", g, fmt.Sprintf("(not (= %s nilp))", v.val(c.Value)), pos)
+			v.advanceClock(heap)
+			return v.freshResults(sig, g)
+		}
 		v.note("dynamic call of an unknown function value treated as arbitrary: %s", c.Value.Type())
 		v.safety("nil-func-call", g, fmt.Sprintf("(not (= %s nilp))", v.val(c.Value)), pos)
 		v.havocAll(heap, true)
@@ -492,12 +519,22 @@ func (v *VC) callEnv(callee *ssa.Function, sig *types.Signature, ct *Contract, a
 	return env
 }
 
+func mustParse(src string) SExpr {
+	e, err := ParseSpec(src)
+	if err != nil {
+		panic(specErr{err.Error()})
+	}
+	return e
+}
+
 // havocGhosts gives the named ghost variables ("*" = all declared) arbitrary new values.
 func (v *VC) havocGhosts(set map[string]bool, heap *Heap) {
 	var names []string
 	for g := range v.P.db.Ghosts {
-		if set["*"] || set[g] {
+		if set[g] || (set["*"] && !v.P.db.StableGhosts[g]) {
 			names = append(names, g)
+		} else if set["*"] && v.P.db.StableGhosts[g] {
+			v.note("ghost %s is declared stable: callees without a contract are assumed not to change it", g)
 		}
 	}
 	sort.Strings(names)
@@ -509,6 +546,19 @@ func (v *VC) havocGhosts(set map[string]bool, heap *Heap) {
 		v.emit("(declare-const %s %s)", nm, v.P.db.Ghosts[g])
 		heap.m[key] = nm
 	}
+}
+
+// globalFuncVarKey: "<pkgpath>.<name>" when x is the value loaded from a package-level variable.
+func globalFuncVarKey(x ssa.Value) string {
+	u, ok := x.(*ssa.UnOp)
+	if !ok || u.Op != token.MUL {
+		return ""
+	}
+	gl, ok := u.X.(*ssa.Global)
+	if !ok || gl.Pkg == nil {
+		return ""
+	}
+	return gl.Pkg.Pkg.Path() + "." + gl.Name()
 }
 
 // bindFree makes the captured variables of a closure visible to its contract at a call site.
@@ -542,8 +592,14 @@ func (v *VC) modularCall(callee *ssa.Function, ct *Contract, args []string, bind
 		v.oblige("call("+callee.Name()+").requires", r.Label, g, v.evalSpec(r, pre), pos, r.Src)
 		v.assume(g, v.evalSpec(r, pre))
 	}
-	if !ct.ModNothing {
+	if ct.ModYounger != "" {
+		yt := v.ev(mustParse(ct.ModYounger), pre)
+		v.note("assumed frame of %s: writes only to the object of %s and to younger objects", shortKey(fnKey(callee)), ct.ModYounger)
+		v.havocYounger(heap, false, fmt.Sprintf("(root %s)", ptrOf(v.sortTV(yt), yt.T)))
+	} else if !ct.ModNothing {
 		v.havocAll(heap, false)
+	} else {
+		v.advanceClock(heap) // the callee may allocate
 	}
 	v.havocGhosts(v.P.ghostMod(callee, map[*ssa.Function]bool{}), heap)
 	res := v.freshResults(sig, g)
@@ -620,6 +676,8 @@ func (v *VC) modularSig(name string, sig *types.Signature, ct *Contract, args []
 	}
 	if !ct.ModNothing {
 		v.havocAll(heap, false)
+	} else {
+		v.advanceClock(heap) // the callee may allocate
 	}
 	res := v.freshResults(sig, g)
 	post := mk(heap)
